@@ -141,6 +141,16 @@ def explore(chk):
             d = setbuild.rand_desc(rng, nlang=rng.choice([1, 2]), unbalanced=0.0, absolute=0.0)
             d["styles"] = {"p": {"color": "#ffffff"}, "encc": {"lang": "en-US", "font-family": "Arial"}}
             d["layout"] = {"padding": ["4%", "4%", "10%", "10%"]}
+            # percentage layouts the fit-to-screen step has to complete or to clip: an origin without extent on a caption, an
+            # extent that runs past the safe area on a node
+            c0 = d["langs"][0]["caps"][0]
+            c0["layout"] = {"origin": ["25%", "70%"]}
+            for n in c0["nodes"]:
+                if n[0] == "T":
+                    while len(n) < 3:
+                        n.append(None)
+                    n[2] = {"origin": ["10%", "10%"], "extent": ["95%", "90%"]}
+                    break
             sets = [d]
             kind = setbuild.WRITERS[(h // 8) % len(setbuild.WRITERS)]
             shared = [(kind, None)]
